@@ -54,6 +54,10 @@ type zooEmbedded struct {
 	zooStruct
 	C bool
 }
+type zooEmbeddedPtr struct {
+	*zooStruct
+	C bool
+}
 type zooLower struct {
 	a string
 	A string
@@ -112,6 +116,7 @@ func c06Zoo() []zooItem {
 		{"struct unexported fields", zooUnexported{a: "x", b: 1}}, {"*struct unexported", &zooUnexported{a: "x"}},
 		{"struct mixed", zooMixed{A: "x", b: 1}}, {"struct embedded", zooEmbedded{zooStruct{"x", 1}, true}},
 		{"struct lower+upper", zooLower{a: "x", A: "y"}}, {"struct{}", struct{}{}},
+		{"struct embedded nil pointer", zooEmbeddedPtr{}}, {"struct embedded pointer", zooEmbeddedPtr{&zooStruct{"x", 1}, true}}, {"*struct embedded nil pointer", &zooEmbeddedPtr{}},
 		{"anonymous struct lower", struct{ a, b, n, l, p, v, x string }{}},
 		{"stringer nil receiver field", zooStringer{}},
 		{"*int", pi}, {"**int", ppi}, {"*string", psv},
@@ -204,6 +209,14 @@ func c06Targets() []c06Target {
 		{"Struct{a,b} top", func(in any) { var d c06AB; ab().Parse(in, &d) }},
 		{"Struct{a,b} field a", func(in any) { var d c06AB; ab().Parse(map[string]any{"a": in, "b": 1}, &d) }},
 		{"Struct{a,b} field b", func(in any) { var d c06AB; ab().Parse(map[string]any{"a": "x", "b": in}, &d) }},
+		{"Struct{A,B} capitalised keys top", func(in any) {
+			var d c06AB
+			z.Struct(z.Schema{"A": z.String().Required(), "B": z.Int()}).Parse(in, &d)
+		}},
+		{"Struct{A,B} capitalised keys in slice", func(in any) {
+			var d []c06AB
+			z.Slice(z.Struct(z.Schema{"A": z.String(), "B": z.Int()})).Parse([]any{in}, &d)
+		}},
 		{"Slice(String) top", func(in any) { var d []string; z.Slice(z.String()).Parse(in, &d) }},
 		{"Slice(String) element", func(in any) { var d []string; z.Slice(z.String()).Parse([]any{"x", in}, &d) }},
 		{"Slice(Int) top", func(in any) { var d []int; z.Slice(z.Int()).Min(1).Parse(in, &d) }},
